@@ -8,6 +8,11 @@
 import PydapModel.Proxy
 import Proofs.Proxy
 import Proofs.ProjSrc
+import PydapModel.Derive
+import Proofs.Derive
+import Props.C04
+import Proofs.ProjSrcFull
+import Proofs.ModelSrc
 namespace Pydap.C14
 open Pydap Pydap.Proxy
 
@@ -152,6 +157,143 @@ example : gridResult ⟨[], [.var ['g'] (.vals [(false, [0, 1]), (false, [0, 1, 
     = some [.var ['g'] (.vals [(true, [1]), (false, [0, 1, 2])]), .var ['x'] (.vals [(true, [1])]),
             .var ['y'] (.vals [(false, [0, 1, 2])])] := by decide
 
+
+/-! ### a derived object reads what its selection names on the source rows (client model ∘ server model of C04)
+
+`Derive.DStep` = the derivations of the property (column list, filter on the object's own columns, slice, integer,
+child, filter on a single column written with the columns of the opened sequence).  The derived proxy of the heap
+model writes its request (`SeqClient.objQuery`: `SequenceProxy.url`, all three branches of `_projection`), the server
+model of C04 reads and answers it (`SeqClient.serveQuery`: `parse_ce`, `apply_selection`, `apply_projection`, any of
+the three backends), and the answer is `Derive.refSelection` — a reference with no pydap code in it: every condition of
+the chain, then its record ranges IN THE ORDER THEY WERE APPLIED (Python list slicing), then the columns of the LAST
+column list / the child.  The record ranges reach the server as ONE hyperslab (`combine_slices`, C03): the theorem
+contains C03's composition law for slices of strided slices (`Derive.pySlice_combine`). -/
+section DerivedReads
+open Pydap.Seq Pydap.SeqClient Pydap.Derive
+open Pydap.IterData (Op Item RCond rsplitHead refCond cellOf)
+variable {A : Type}
+
+/-- **A derived object reads the same data as a fresh client applying the same selection — by name.**
+    The dataset is opened with `open_url(url)` (object `r` of a well-formed client heap is the proxy of the flat
+    sequence `id` with columns `names`).  Any chain `l` of derivations is applied, with an arbitrary history of other
+    client events before each of them.  `ChainOk`: column lists are non-empty, duplicate-free lists of columns (ANY
+    columns of the sequence, also after an earlier list: the last list decides columns and order); comparisons name
+    columns of the sequence; slices and integers are non-negative (steps ≥ 1); after a child only slices, integers and
+    `colfilt` follow.  `RangeOk`: the combined range is not empty-by-stop (`stop = 0` prints as unbounded, C03).
+    Then the GET the derived proxy issues is answered by the server with exactly `refSelection chain rows`. -/
+theorem C14_derived_reads_reference (cmp : Op → A → A → Bool) (enc : A → List Char) (lit : List Char → Option A)
+    (henc : ∀ v, lit (enc v) = some v) (id : Name) (hhead : ∀ v, rsplitHead (enc v) ≠ id)
+    (hst : ∀ v ch r, enc v = ch :: r → ch ≠ '=' ∧ ch ≠ '~')
+    (names : List Name) (hnd : names.Nodup) (hid : id ∉ names)
+    (hidok : NameOk id) (hnames : ∀ k ∈ names, NameOk k)
+    (rows : List (List A)) (hrows : ∀ r ∈ rows, r.length = names.length)
+    (hlen : (rows.length : Int) ≤ MAXSIZE) (bk : Backend)
+    (h : Heap) (w : WF h) (r : Nat) (base : Name) (σ : Sess) (tm : Nat)
+    (hs : specAt h r = some (specOf (openTmpl id names ⟨none, []⟩) (openProxy base σ tm ⟨none, []⟩)))
+    (l : List (List Ev × DStep A))
+    (hok : ChainOk enc names false (l.map (·.2)))
+    (hr : RangeOk (((l.map (·.2)).map toCOp).foldl (accStep enc id) (openAcc id names ⟨none, []⟩)).sl) :
+    let d := deriveAmid h r (l.map fun x => (x.1, keyOfStep enc [id] (openProxy base σ tm ⟨none, []⟩) x.2))
+    ∃ q out, objQuery d.1 d.2 = some q ∧
+      refSelection cmp names (l.map (·.2)) rows = some out ∧
+      serveQuery cmp enc lit bk id names rows q = some (.ok (out.map Item.row)) := by
+  intro d
+  let chain := l.map (·.2)
+  let a0 : Acc := openAcc id names ⟨none, []⟩
+  let a := (chain.map toCOp).foldl (accStep enc id) a0
+  have hne : [] ∉ names := fun hm => (hnames [] hm).1 rfl
+  have hkeys : ∀ k ∈ names, k ∈ names := fun k hk => hk
+  have hops := opsOk_of_chainOk enc names false chain hok
+  -- C14: the derived object is described by the accumulation (after a child: the single column)
+  obtain ⟨hchain, hinv⟩ := chain_spec enc base id names σ hidok hnames (openProxy base σ tm ⟨none, []⟩) chain false a0
+    hok (by intro e; cases e)
+  have hsnd : (l.map fun x => (x.1, keyOfStep enc [id] (openProxy base σ tm ⟨none, []⟩) x.2)).map Prod.snd
+      = chain.map (keyOfStep enc [id] (openProxy base σ tm ⟨none, []⟩)) := by
+    simp [chain, List.map_map, Function.comp_def]
+  have hspec := deriveAmid_spec h w r (specOfAcc base id names σ false a0) _
+    (l.map fun x => (x.1, keyOfStep enc [id] (openProxy base σ tm ⟨none, []⟩) x.2))
+    (by rw [hs, open_spec]; rfl) (by rw [hsnd]; exact hchain)
+  -- invariants of the accumulation
+  have hvis0 : VisOk names a0 := by intro hsub; cases hsub
+  obtain ⟨hsel, hvis⟩ := run_invariants enc lit id names names hidok hnames hkeys henc hhead hst
+    (chain.map toCOp) a0 [] hops ⟨by intro x hx; simp [a0, openAcc] at hx, [], rfl, rfl⟩ hvis0
+  have hq := specQuery_acc base id names names σ hidok hnames (seenAfter false chain) a hinv hvis hkeys
+  obtain ⟨conds, hres, hreq⟩ := query_request lit base id names names σ a _ hidok hnames hkeys hvis hsel hr
+  have hcols : ∀ k ∈ (if a.sub then some a.vis else none).getD names, k ∈ names := by
+    intro k hk
+    cases hsub : a.sub with
+    | false => simpa [hsub] using hk
+    | true => rw [hsub] at hk; exact (hvis hsub).2.2 k (by simpa using hk)
+  have hcolsEq : (if a.sub then a.vis else names) = chain.foldl stepCols names := cols_eq enc id names chain a0
+  have hcols' : ∀ k ∈ chain.foldl stepCols names, k ∈ names := by
+    intro k hk
+    rw [← hcolsEq] at hk
+    apply hcols k
+    cases hsub : a.sub <;> simpa [hsub] using hk
+  obtain ⟨out, hout, href⟩ := refEval_refSelection cmp enc id names rows hrows chain hok hcols'
+  refine ⟨_, out, objQuery_of_specAt hspec, hout, ?_⟩
+  rw [hq]
+  unfold serveQuery
+  cases hp : parseCE (specQuery (accSpec base id names σ a)) with
+  | none => rw [hp] at hreq; simp at hreq
+  | some ps =>
+    obtain ⟨proj, sel⟩ := ps
+    rw [hp] at hreq
+    simp only [Option.bind_some] at hreq
+    simp only [hreq, Option.map_some, Option.some.injEq]
+    rw [C04.C04_serve_any_backend cmp enc lit henc id hhead names hnd hid hne rows hrows bk _ _ hres hcols]
+    simp only
+    rw [refEval_wire cmp names _ _ a.sl rows hlen, ← href]
+    have e1 : ([] : List (RCond A)) ++ (chain.map toCOp).flatMap opRcs = chain.flatMap stepConds := by
+      rw [List.nil_append]; exact conds_eq chain
+    rw [e1, ← hcolsEq]
+    cases hsub : a.sub <;> rfl
+
+/-- **The request of a derived object is a function of its derivation chain alone** — not of the heap it was derived
+    in, nor of what else happened in between: it is the text of the pure accumulation of the chain.  Hence the object
+    derived amid any history and the object a FRESH client derives with the same chain (a freshly opened heap, no other
+    events) send the same request, and by `C14_derived_reads_reference` read the same rows. -/
+theorem C14_derived_equals_fresh (enc : A → List Char) (id : Name) (names : List Name)
+    (hidok : NameOk id) (hnames : ∀ k ∈ names, NameOk k)
+    (h h' : Heap) (w : WF h) (w' : WF h') (r r' : Nat) (base : Name) (σ : Sess) (tm tm' : Nat)
+    (hs : specAt h r = some (specOf (openTmpl id names ⟨none, []⟩) (openProxy base σ tm ⟨none, []⟩)))
+    (hs' : specAt h' r' = some (specOf (openTmpl id names ⟨none, []⟩) (openProxy base σ tm' ⟨none, []⟩)))
+    (l : List (List Ev × DStep A))
+    (hok : ChainOk enc names false (l.map (·.2))) :
+    let d := deriveAmid h r (l.map fun x => (x.1, keyOfStep enc [id] (openProxy base σ tm ⟨none, []⟩) x.2))
+    let f := deriveAmid h' r' (l.map fun x => ([], keyOfStep enc [id] (openProxy base σ tm' ⟨none, []⟩) x.2))
+    objQuery d.1 d.2 = objQuery f.1 f.2 ∧
+    objQuery d.1 d.2 = some (specQuery (specOfAcc base id names σ (seenAfter false (l.map (·.2)))
+      (((l.map (·.2)).map toCOp).foldl (accStep enc id) (openAcc id names ⟨none, []⟩)))) := by
+  intro d f
+  let chain := l.map (·.2)
+  let a0 : Acc := openAcc id names ⟨none, []⟩
+  have key : ∀ (g : Heap) (wg : WF g) (q : Nat) (t : Nat) (ll : List (List Ev × DStep A)) (hll : ll.map (·.2) = chain)
+      (hg : specAt g q = some (specOf (openTmpl id names ⟨none, []⟩) (openProxy base σ t ⟨none, []⟩))),
+      objQuery (deriveAmid g q (ll.map fun x => (x.1, keyOfStep enc [id] (openProxy base σ t ⟨none, []⟩) x.2))).1
+          (deriveAmid g q (ll.map fun x => (x.1, keyOfStep enc [id] (openProxy base σ t ⟨none, []⟩) x.2))).2
+        = some (specQuery (specOfAcc base id names σ (seenAfter false chain) ((chain.map toCOp).foldl (accStep enc id) a0))) := by
+    intro g wg q t ll hll hg
+    obtain ⟨hchain, _⟩ := chain_spec enc base id names σ hidok hnames (openProxy base σ t ⟨none, []⟩) chain false a0
+      hok (by intro e; cases e)
+    have hsnd : (ll.map fun x => (x.1, keyOfStep enc [id] (openProxy base σ t ⟨none, []⟩) x.2)).map Prod.snd
+        = chain.map (keyOfStep enc [id] (openProxy base σ t ⟨none, []⟩)) := by
+      rw [← hll]; simp [List.map_map, Function.comp_def]
+    exact objQuery_of_specAt (deriveAmid_spec g wg q (specOfAcc base id names σ false a0) _ _
+      (by rw [hg, open_spec]; rfl) (by rw [hsnd]; exact hchain))
+  have e1 := key h w r tm l rfl hs
+  have e2 := key h' w' r' tm' (l.map fun x => ([], x.2)) (by simp [chain, List.map_map, Function.comp_def]) hs'
+  have e2' : objQuery f.1 f.2 = some (specQuery (specOfAcc base id names σ (seenAfter false chain)
+      ((chain.map toCOp).foldl (accStep enc id) a0))) := by
+    have : (l.map fun x => (([] : List Ev), keyOfStep enc [id] (openProxy base σ tm' ⟨none, []⟩) x.2))
+        = ((l.map fun x => (([] : List Ev), x.2)).map fun x => (x.1, keyOfStep enc [id] (openProxy base σ tm' ⟨none, []⟩) x.2)) := by
+      simp [List.map_map, Function.comp_def]
+    show objQuery (deriveAmid h' r' _).1 (deriveAmid h' r' _).2 = _
+    rw [this]; exact e2
+  exact ⟨e1.trans e2'.symm, e1⟩
+
+end DerivedReads
+
 /-! ### the tie by translation: the ids and the record range of `seqReq` are what the source writes
 
 `Pydap.Gen.src_seq_id` / `Pydap.Gen.src_seq_projection` are the MiniPy trees of handlers/dap.py `SequenceProxy.id` and
@@ -179,6 +321,119 @@ theorem C14_source_projection_whole (t : Tmpl) (p : SeqProxy) (hs : p.subChildre
   rw [src_seq_projection_eq, projSpec_model t p true (.inl rfl)]
   simp [SeqClient.projText, SeqClient.proxyId, seqIds, hs, SeqClient.joinWith]
 
+
+/-! non-vacuity of `C14_derived_reads_reference` -/
+section DerivedExamples
+open Pydap.Seq Pydap.SeqClient Pydap.Derive Pydap.TableVal
+def dNames : List Name := [['i'], ['f'], ['t']]
+def dRows : List (List Val) :=
+  [[.num 16, .num 24, .str ['a']], [.num 32, .num 40, .str ['b']], [.num 48, .num 8, .str ['c']],
+   [.num 64, .num 72, .str ['d']], [.num 80, .num 56, .str ['e']], [.num 96, .num 32, .str ['g']]]
+/-- `s[["f","i"]][0:6:2][["t","i"]][1:3]["t"][(s.t != "a")]`: a strided slice, a second column list on the
+    column-restricted proxy, a slice of the strided slice, the child, a condition on the single column -/
+def dChain : List (DStep Val) :=
+  [.cols [['f'], ['i']], .sl ⟨some 0, some 6, some 2⟩, .cols [['t'], ['i']], .sl ⟨some 1, some 3, none⟩,
+   .child ['t'], .colfilt ⟨['t'], .ne, .val (.str ['a'])⟩ []]
+
+example : ChainOk encVal dNames false dChain := by
+  refine ⟨⟨rfl, by decide, by decide, by decide⟩, ⟨by decide, by decide, by decide⟩,
+    ⟨rfl, by decide, by decide, by decide⟩, ⟨by decide, by decide, by decide⟩, ⟨rfl, by decide⟩, ?_, trivial⟩
+  intro x hx
+  simp at hx
+  subst hx
+  exact ⟨by decide, by decide⟩
+example : RangeOk ((dChain.map toCOp).foldl (accStep encVal ['s']) (openAcc ['s'] dNames ⟨none, []⟩)).sl := by
+  right
+  exact ⟨2, 6, 2, by decide, by decide, by decide, by decide⟩
+-- rows 0, 2, 4 of those with t != "a", then [1:3] of these, column t
+example : refSelection cmpVal dNames dChain dRows = some [[.str ['d']], [.str ['g']]] := by decide
+-- the request the derived column writes, and the server's answer to it
+example : (serveQuery cmpVal encVal litVal .numpy ['s'] dNames dRows "s[2:2:5].t&s.t!=\"a\"".toList)
+    = some (.ok [.row [.str ['d']], .row [.str ['g']]]) := by decide
+-- the last column list decides the order
+example : refSelection cmpVal dNames [.cols [['f'], ['i']], .cols [['i'], ['f']], .idx 2] dRows
+    = some [[.num 48, .num 8]] := by decide
+end DerivedExamples
+
+section DerivedVal
+open Pydap.Seq Pydap.SeqClient Pydap.Derive Pydap.TableVal
+open Pydap.IterData (Op Item RCond rsplitHead refCond cellOf)
+
+/-- **The same on the value domain of the property** (numbers on the dyadic grid, ASCII strings; `encVal` =
+    `pydap.lib.encode`, `litVal` = `ast.literal_eval`, `cmpVal` = Python's comparison, all character level): the
+    conditions on encoded values are lemmas (`Proofs/SeqEnc.lean`); what remains is about names, the chain and the
+    combined range. -/
+theorem C14_derived_reads_reference_val (id : Name) (hidc : ∃ c r, id = c :: r ∧ c.isAlpha = true)
+    (names : List Name) (hnd : names.Nodup) (hid : id ∉ names)
+    (hidok : NameOk id) (hnames : ∀ k ∈ names, NameOk k)
+    (rows : List (List Val)) (hrows : ∀ r ∈ rows, r.length = names.length)
+    (hlen : (rows.length : Int) ≤ MAXSIZE) (bk : Backend)
+    (h : Heap) (w : WF h) (r : Nat) (base : Name) (σ : Sess) (tm : Nat)
+    (hs : specAt h r = some (specOf (openTmpl id names ⟨none, []⟩) (openProxy base σ tm ⟨none, []⟩)))
+    (l : List (List Ev × DStep Val))
+    (hok : ChainOk encVal names false (l.map (·.2)))
+    (hr : RangeOk (((l.map (·.2)).map toCOp).foldl (accStep encVal id) (openAcc id names ⟨none, []⟩)).sl) :
+    let d := deriveAmid h r (l.map fun x => (x.1, keyOfStep encVal [id] (openProxy base σ tm ⟨none, []⟩) x.2))
+    ∃ q out, objQuery d.1 d.2 = some q ∧
+      refSelection cmpVal names (l.map (·.2)) rows = some out ∧
+      serveQuery cmpVal encVal litVal bk id names rows q = some (.ok (out.map Item.row)) := by
+  have hst : ∀ v ch r, encVal v = ch :: r → ch ≠ '=' ∧ ch ≠ '~' := by
+    intro v ch r e
+    obtain ⟨c, r', e', hc⟩ := encVal_head v
+    rw [e] at e'
+    simp only [List.cons.injEq] at e'
+    obtain ⟨rfl, _⟩ := e'
+    rcases hc with rfl | rfl | hd
+    · exact ⟨by decide, by decide⟩
+    · exact ⟨by decide, by decide⟩
+    · constructor <;> (intro e2; subst e2; exact absurd hd (by decide))
+  exact C14_derived_reads_reference cmpVal encVal litVal litVal_encVal id (encVal_head_ne id hidc) hst names hnd hid hidok
+    hnames rows hrows hlen bk h w r base σ tm hs l hok hr
+
+/-- the theorem applied: the example chain on a heap opened by `open_url`, every derivation after reads of other objects -/
+def dHeap : Heap := openHeap ['u'] [] (some 7) ['s'] dNames [(['a'], [3], false)]
+example : ∃ q out,
+    objQuery (deriveAmid dHeap 0 (dChain.map fun st => ([Ev.iter 0, .aget 1 [Idx.int 0]],
+        keyOfStep encVal [['s']] (openProxy ['u'] (some 7) 0 ⟨none, []⟩) st))).1
+      (deriveAmid dHeap 0 (dChain.map fun st => ([Ev.iter 0, .aget 1 [Idx.int 0]],
+        keyOfStep encVal [['s']] (openProxy ['u'] (some 7) 0 ⟨none, []⟩) st))).2 = some q ∧
+    refSelection cmpVal dNames dChain dRows = some out ∧
+    serveQuery cmpVal encVal litVal .csv ['s'] dNames dRows q = some (.ok (out.map Item.row)) := by
+  have hn : ∀ k ∈ dNames, NameOk k := by
+    intro k hk
+    simp [dNames] at hk
+    rcases hk with rfl | rfl | rfl <;> exact ⟨by decide, by decide⟩
+  have := C14_derived_reads_reference_val ['s'] ⟨'s', [], rfl, by decide⟩ dNames (by decide) (by decide)
+    ⟨by decide, by decide⟩ hn dRows (by decide) (by decide) .csv dHeap
+    (by intro p hp; simp [dHeap, openHeap] at hp; subst hp; decide) 0 ['u'] (some 7) 0 (by decide)
+    (dChain.map fun st => ([Ev.iter 0, .aget 1 [Idx.int 0]], st))
+    (by
+      simp only [List.map_map, Function.comp_def, List.map_id']
+      refine ⟨⟨rfl, by decide, by decide, by decide⟩, ⟨by decide, by decide, by decide⟩,
+        ⟨rfl, by decide, by decide, by decide⟩, ⟨by decide, by decide, by decide⟩, ⟨rfl, by decide⟩, ?_, trivial⟩
+      intro x hx
+      simp at hx
+      subst hx
+      exact ⟨by decide, by decide⟩)
+    (by
+      simp only [List.map_map, Function.comp_def, List.map_id']
+      right
+      exact ⟨2, 6, 2, by decide, by decide, by decide, by decide⟩)
+  simpa [List.map_map, Function.comp_def] using this
+
+end DerivedVal
+
+open MiniPy in
+/-- **the whole of `SequenceProxy._projection`**: for every proxy the interpreted body (all three branches: selected
+    columns, single column — fix 3339666 —, whole sequence) returns the model's `projFull`, the projection inside the
+    request text of `C14_derived_reads_reference`; `isinstance(self.template, SequenceType)` is read as "the template
+    has children declared" (`t.keys ≠ []`: a flat sequence without columns is outside the model) -/
+theorem C14_source_projection_full (t : Tmpl) (p : SeqProxy) :
+    runItem (proxyEnv t p (decide (t.keys ≠ []))) Gen.src_seq_projection "@ret"
+      = .ok (.str (codesOf (SeqClient.projFull t p))) := by
+  unfold proxyEnv
+  rw [src_seq_projection_eq, projSpec_full]
+
 section SourceExamples
 open MiniPy
 
@@ -198,6 +453,117 @@ example : runItem (proxyEnv ⟨["s".toList], ["f".toList], ["f".toList]⟩ srcP 
 example : runItem (proxyEnv ⟨["s".toList], ["f".toList], ["f".toList]⟩ srcP true) Gen.src_seq_projection "@ret"
     = .ok (.str (codesOf "s[1:1:2]".toList)) := by decide +kernel
 
+-- the single column `s.f` with the range `[1:3]`: the range goes on `s`
+example : SeqClient.projFull ⟨["s".toList, "f".toList], [], []⟩ srcP = "s[1:1:2].f".toList := by decide +kernel
+
 end SourceExamples
+
+/-! ### a grid returned by an earlier read is an object of its own (seed C14-y) -/
+
+/-- **A grid returned by an earlier read is an object of its own.**  After any history `evs1`, `grid[key]` (with
+    `output_grid` on) returns children `l` and a new grid `g` that refers to them.  Whatever happens afterwards
+    (`evs2`: any history — in particular a sub-selection `g[key']`, `Ev.ggrid g key'`, and indexing one of its members,
+    `Ev.vget member idx`, the scenario of seed C14-y, but also reads of the opened grid and sequence derivations):
+    the returned grid still refers to the same children, its deep view — `_output_grid`, per member the id and the
+    data it holds: the received array (positions per source axis) or, for a map a short key left lazy, the proxy's id,
+    slice and session — is what it was when it was returned, every member object has the observable it had, and
+    sub-selecting it or indexing it again returns what it would have returned right away. -/
+theorem C14_returned_grid_unchanged (h : Heap) (w : WF h) (evs1 evs2 : List Ev) (r : Nat) (key : List Idx)
+    (l : List Obj) (e : gridResult (run h evs1) r key = some l) :
+    let h1 := run h evs1
+    let h2 := step h1 (.ggrid r key)
+    let g := h1.objs.length + l.length
+    h2.objs[g]? = some (Obj.grid ((List.range l.length).map fun i => h1.objs.length + i) true)
+    ∧ (∀ i, i < l.length → h2.objs[h1.objs.length + i]? = l[i]?)
+    ∧ (∀ v, gridView h2 g = some v → gridView (run h2 evs2) g = some v)
+    ∧ (∀ i, i ≤ l.length → obs (run h2 evs2) (h1.objs.length + i) = obs h2 (h1.objs.length + i))
+    ∧ (∀ key' l', gridResult h2 g key' = some l' → gridResult (run h2 evs2) g key' = some l')
+    ∧ (∀ i idx ax, varResult h2 (h1.objs.length + i) idx = some ax →
+        varResult (run h2 evs2) (h1.objs.length + i) idx = some ax) := by
+  intro h1 h2 g
+  have w1 : WF h1 := (run_extends h w evs1).2
+  have w2 : WF h2 := (step_extends h1 w1 _).2
+  have hobjs : h2.objs = h1.objs ++ l ++ [Obj.grid ((List.range l.length).map fun i => h1.objs.length + i) true] :=
+    ggrid_objs h1 r key e
+  have ex := (run_extends h2 w2 evs2).1
+  refine ⟨?_, ?_, ?_, ?_, ?_, ?_⟩
+  · rw [hobjs]
+    have : g = (h1.objs ++ l).length := by simp [g]
+    rw [this, List.getElem?_append_right (Nat.le_refl _)]
+    simp
+  · intro i hi
+    rw [hobjs, List.append_assoc, List.getElem?_append_right (by omega)]
+    simp only [Nat.add_sub_cancel_left]
+    rw [List.getElem?_append_left hi]
+  · intro v hv
+    exact gridView_extends ex hv
+  · intro i hi
+    apply obs_extends w2 ex
+    rw [hobjs]; simp; omega
+  · intro key' l' e'
+    exact gridResult_stable (Stable.of_extends ex (run_src h2 evs2)) g key' e'
+  · intro i idx ax e'
+    exact varResult_stable (Stable.of_extends ex (run_src h2 evs2)) _ idx e'
+
+/-- non-vacuity (the seed C14-y scenario on a grid already received): `g2 = grid[0:1]`, then `g2[0]` (sub-selection)
+    and `g2.x[0:1]` (indexing a member); `g2` keeps its children and what they hold -/
+def exLocal : Heap :=
+  ⟨[], [.var ['g'] (.vals [(false, [0, 1]), (false, [0, 1, 2])]), .var ['x'] (.vals [(false, [0, 1])]),
+        .var ['y'] (.vals [(false, [0, 1, 2])]), .grid [0, 1, 2] true], [], []⟩
+example : WF exLocal := by intro p hp; simp [exLocal] at hp
+example : gridResult (run exLocal []) 3 [Idx.sl ⟨some 0, some 1, none⟩]
+    = some [.var ['g'] (.vals [(false, [0]), (false, [0, 1, 2])]), .var ['x'] (.vals [(false, [0])]),
+            .var ['y'] (.vals [(false, [0, 1, 2])])] := by decide
+example :
+    let h2 := step exLocal (.ggrid 3 [Idx.sl ⟨some 0, some 1, none⟩])
+    gridView h2 7 = some (true, [(['g'], .vals [(false, [0]), (false, [0, 1, 2])]), (['x'], .vals [(false, [0])]),
+                                 (['y'], .vals [(false, [0, 1, 2])])])
+    ∧ gridView (run h2 [.ggrid 7 [Idx.int 0], .vget 5 [Idx.sl ⟨some 0, some 1, none⟩]]) 7 = gridView h2 7
+    ∧ (run h2 [.ggrid 7 [Idx.int 0], .vget 5 [Idx.sl ⟨some 0, some 1, none⟩]]).objs.length = 13 := by decide
+
+
+
+/-! ### the tie by translation: indexing a variable or a grid only READS the data the object holds
+
+`C14_returned_grid_unchanged` (and `C14_pure` for variables) speak about a model in which a received array is a value:
+`varGetitem` / `gridLoop` allocate a new `Obj.var id (.vals …)` and write nothing.  That the code does the same is read off
+its source text: `Gen.src_basetype_getitem`, `Gen.src_get_data_index` are the MiniPy trees of model.py
+`BaseType.__getitem__` and `BaseType._get_data_index`, regenerated on every run (the loop of `GridType.__getitem__` calls
+`self[var.name].data[slice_]`, i.e. the same indexing of a member's data; the loop itself is covered by the traced
+correspondence, not by translation).  Opaque inputs: `copy.copy(self)` (the model's new object with the id of the old one), `self._data[index]`
+(the model's `readData`: a GET for a proxy, numpy basic indexing `npLocal` for a received array — numpy returns a VIEW of
+the same buffer there, which is why "nothing else is done with it" matters), the string decoder.
+Set aside (named in the generator): the DAP4 attribute copying.  The theorems say what is returned / stored on the new
+object and that `self.data` / `self._data` are not assigned (`x.attr = e` is read as the assignment of the variable `x.attr`).  An in-place operation on the indexed data (seed C14-y: `byteswap(inplace=True)`
+on the view) is outside the fragment and breaks `C14_source_basetype_getitem`. -/
+section ModelSource
+open MiniPy
+
+/-- `BaseType.__getitem__`: the copy is returned, its `data` is what `_get_data_index(index)` returned, and the block
+    assigns neither `self.data` nor `self._data` (stated on the environment the block leaves, so a rewrite that only names
+    an intermediate value still checks) -/
+theorem C14_source_basetype_getitem (env : Env) (cp ix : Val) (h1 : lookup env "@copy" = .ok cp)
+    (h2 : lookup env "@indexed" = .ok ix) :
+    ∃ env', exec env Gen.src_basetype_getitem = .ok env' ∧
+      lookup env' "@ret" = .ok cp ∧ lookup env' "out.data" = .ok ix ∧
+      lookup env' "self.data" = lookup env "self.data" ∧ lookup env' "self._data" = lookup env "self._data" :=
+  src_basetype_getitem_eq env cp ix h1 h2
+
+/-- `BaseType._get_data_index`: the value returned is `self._data[index]`, decoded when (and only when) the data is a numpy
+    array of byte strings; `self.data` / `self._data` are not assigned -/
+theorem C14_source_get_data_index (env : Env) (isStr isArr : Bool) (plain decoded : Val)
+    (h1 : lookup env "@is_string" = .ok (.bool isStr)) (h2 : lookup env "@is_ndarray" = .ok (.bool isArr))
+    (h3 : lookup env "@plain" = .ok plain) (h4 : lookup env "@decoded" = .ok decoded) :
+    ∃ env', exec env Gen.src_get_data_index = .ok env' ∧
+      lookup env' "@ret" = .ok (if isStr && isArr then decoded else plain) ∧
+      lookup env' "self.data" = lookup env "self.data" ∧ lookup env' "self._data" = lookup env "self._data" :=
+  src_get_data_index_eq env isStr isArr plain decoded h1 h2 h3 h4
+
+example : runItem [("@copy", .obj 1), ("@indexed", .ilist [3, 4])] Gen.src_basetype_getitem "out.data" = .ok (.ilist [3, 4]) := by
+  decide +kernel
+example : runItem [("@is_string", .bool true), ("@is_ndarray", .bool false), ("@plain", .obj 1), ("@decoded", .obj 2)]
+    Gen.src_get_data_index "@ret" = .ok (.obj 1) := by decide +kernel
+
+end ModelSource
 
 end Pydap.C14
